@@ -311,6 +311,18 @@ func boundShifts(q *Term) map[*Term][]bshift {
 // candidatesFor lists the instantiation terms for bound variable b of quantifier q.
 func candidatesFor(q, b *Term, cands map[string]map[*Term]bool) []*Term {
 	set := map[*Term]bool{}
+	if strings.HasSuffix(strings.SplitN(b.Name, "!", 2)[0], "SK") {
+		// a bound variable named ...SK (in a `use forall` schema): instantiated only at skolem
+		// constants, cand(e) terms and inst hints - never at the index terms of the obligation
+		var l []*Term
+		for c := range cands[b.Key+"|sk"] {
+			if c.S == b.S {
+				l = append(l, c)
+			}
+		}
+		sort.Slice(l, func(i, j int) bool { return l[i].id < l[j].id })
+		return l
+	}
 	for _, sh := range boundShifts(q)[b] {
 		for _, src := range []string{b.Key + "|" + sh.ctx, b.Key + "|sk"} {
 			for c := range cands[src] {
